@@ -279,6 +279,22 @@ def gen_cases(ctx):
     for a in [U.S("abc"), U.L(U.L(), U.I(1)), U.Y("a"), U.I(-3)]:
         for verb in ("~", "#", "!"):
             cases.append(("M", verb, a, None))
+    # ---- Match / Find must see the nesting structure: a list against itself wrapped, reshaped or flattened
+    def wraps(v):
+        out = [('L', [v])]
+        if v[0] == 'L' and v[1]:
+            out.append(('L', [('L', [x]) for x in v[1]]))            # column
+            if all(x[0] == 'L' for x in v[1]):
+                out.append(('L', [y for x in v[1] for y in x[1]]))   # one level flattened
+        return out
+    structural = [v for v in U.LISTS if v[0] == 'L'] + [P([1.5, 2.5]), P([[1.5, 2.5]]), P([[1.0, 2.0], [3.0, 4.0]]),
+                                                          P([0.5]), P([[0.5]]), P([1.0, 2.0]), P([])]
+    for v in structural:
+        for w in wraps(v):
+            cases.append(("D", "~", v, w))
+            cases.append(("D", "~", w, v))
+            cases.append(("D", "?", ('L', [w, v]), v))
+            cases.append(("D", "?", ('L', [v, w, v]), w))
     # ---- extension 3: Amend, Amend-in-Depth, Index-in-Depth, Divide/Power edges, Char, Format, Form
     from . import c01_ext3_cases
     cases += c01_ext3_cases.extra_cases(U, seqs)
@@ -295,6 +311,22 @@ def case_text(c):
     if ar == "M":
         return f"{verb}({U.klit(a, False)})" if a[0] not in "ir" else f"{verb}{U.klit(a)}"
     return f"({U.klit(a, False)}){verb}({U.klit(b, False)})"
+
+
+def computed_text(c):
+    """the same application with its numeric atom operands COMPUTED (n+0: a numpy scalar) instead of
+    read from a literal (a Python number); None when no operand is a numeric atom"""
+    ar, verb, a, b = c
+
+    def lit(v):
+        if v[0] == 'i':
+            return f"({U.klit(v)}+0)"
+        if v[0] == 'r':
+            return f"({U.klit(v)}+0.0)"
+        return "(" + U.klit(v, False) + ")"
+    if not any(o is not None and o[0] in "ir" for o in (a, b)):
+        return None
+    return f"{verb}{lit(a)}" if ar == "M" else f"{lit(a)}{verb}{lit(b)}"
 
 
 def np_shape(v):
@@ -471,6 +503,7 @@ def run(ctx):
             lines.append(f"{ar} {verb} {U.to_wire(a)}" + (f" {U.to_wire(b)}" if b is not None else ""))
         replies = drv.ask_many(lines) if drv else [None] * len(cases)
         per_verb = {}
+        nvariants = 0
         for c, rep in zip(cases, replies):
             ar, verb, a, b = c
             text = case_text(c)
@@ -501,6 +534,17 @@ def run(ctx):
                                  U.show(real) if real[0] != 'E' else f"raises {real[1]}")
             elif impl == "err" and ref is None and real[0] != 'E':
                 ctx.bump("impl-err-but-real-returns")   # outside the reference: it may accept more
+            # the same application with computed (numpy scalar) atoms must give the same value
+            ctext = computed_text(c) if ref is not None and real[0] != 'E' else None
+            if ctext is not None and (ar == "M" or nvariants % 4 == 0 or ctx.tier != "quick"):
+                real2 = real_eval(klong, ctext)
+                ctx.bump("computed-atom-variants")
+                if real2[0] == 'E' or not U.veq(ref, real2):
+                    ctx.oracle_fail("computed-atom:" + f"{ar}{verb}:" + ":".join(shape_class(o) for o in ([a] if b is None else [a, b])),
+                                    dict(text=ctext), U.show(ref), U.show(real2) if real2[0] != 'E' else f"raises {real2[1]}",
+                                    f"{verb}: operands computed as n+0 give another value than the literals")
+            if ctext is not None:
+                nvariants += 1
             if len(ctx.samples) < 6 and ref is not None and st["ref_defined"] % 97 == 1:
                 ctx.sample(dict(text=text, ref=U.show(ref), real=U.show(real) if real[0] != 'E' else real[1]))
         ctx.extra["per_verb"] = per_verb
